@@ -56,25 +56,36 @@ def confirm(src, name):
     return ok
 
 
-def check(name, ids):
+def check(name, ids, scratch=None):
+    """scratch=None: the documented flow (git -C /repo apply; ./check; git -C /repo checkout -- .).  scratch=<dir>: the same checks run with
+    VERIF_REPO pointing at a scratch worktree of /repo HEAD with the patch applied (lets the matrix run while /repo is in use)"""
     dst = os.path.join(VERIF, 'seeded', name)
     patch = os.path.join(dst, 'patch.diff')
-    rc, out = sh('git -C /repo status --porcelain')
-    assert out.strip() == '', '/repo is not clean: ' + out
-    rc, out = sh('git -C /repo apply %s' % patch)
+    repo = scratch or '/repo'
+    if scratch:
+        if not os.path.isdir(scratch):
+            rc, out = sh('git -C /repo worktree add -q --detach %s HEAD' % scratch)
+            assert rc == 0, out
+        sh('git checkout -q --detach $(git -C /repo rev-parse HEAD) && git checkout -- . && git clean -fdq', cwd=scratch)
+    rc, out = sh('git -C %s status --porcelain' % repo)
+    assert out.strip() == '', '%s is not clean: %s' % (repo, out)
+    rc, out = sh('git -C %s apply %s' % (repo, patch))
     assert rc == 0, out
     meta = json.load(open(os.path.join(dst, 'meta.json')))
+    env = ''
+    if scratch:
+        env = 'VERIF_REPO=%s VERIF_WORK=%s ' % (scratch, scratch.rstrip('/') + '-work')
     try:
         for pid in ids:
             t0 = time.time()
-            rc, out = sh('./check %s --tier quick' % pid, cwd=VERIF, timeout=3600)
+            rc, out = sh(env + './check %s --tier quick' % pid, cwd=VERIF, timeout=3600)
             vio = [l for l in out.split('\n') if l.startswith('VIOLATION')]
             wit = [l.strip() for l in out.split('\n') if l.strip().startswith('witness:')]
-            meta['checks'][pid] = dict(exit=rc, violation_lines=len(vio), first_witness=(wit[0] if wit else None), seconds=round(time.time() - t0),
+            meta['checks'][pid] = dict(exit=rc, ran=('scratch worktree via VERIF_REPO' if scratch else 'git -C /repo apply; ./check; git -C /repo checkout -- .'), violation_lines=len(vio), first_witness=(wit[0] if wit else None), seconds=round(time.time() - t0),
                                        summary=[l for l in out.split('\n') if l.startswith(pid + ' tier=')][-1:] )
             print('%s under %s: exit %d, %d VIOLATION lines %s' % (name, pid, rc, len(vio), wit[0] if wit else ''))
     finally:
-        sh('git -C /repo checkout -- .')
+        sh('git -C %s checkout -- .' % repo)
         json.dump(meta, open(os.path.join(dst, 'meta.json'), 'w'), indent=1)
 
 
@@ -83,3 +94,5 @@ if __name__ == '__main__':
         sys.exit(0 if confirm(sys.argv[2], sys.argv[3]) else 1)
     elif sys.argv[1] == 'check':
         check(sys.argv[2], sys.argv[3:])
+    elif sys.argv[1] == 'scratchcheck':
+        check(sys.argv[2], sys.argv[3:], scratch='/tmp/wt/mrepo')
